@@ -684,7 +684,12 @@ class Engine:
                                     bf.append(Lin.atom(a_) - Lin.const(1))
                                 elif a_ in s.nonneg:
                                     bf.append(Lin.atom(a_))
-                            for c_ in (1, 0):
+                            # candidates: 1, 0 and -- for a variable that starts at a constant c0 (a capacity that only grows) -- c0 + 1 and c0
+                            cands = [1, 0]
+                            for x_ in i["incoming"]:
+                                if x_["bb"] not in fn.loops[bb]["_set"] and x_["v"].get("k") == "c" and 1 < x_["v"]["v"] < (1 << 31):
+                                    cands = [x_["v"]["v"] + 1, x_["v"]["v"]] + cands
+                            for c_ in cands:
                                 if entails(bf, xv[1] - Lin.const(c_)):
                                     carried.append(Lin.atom(vid) - Lin.const(c_))
                                     break
